@@ -764,6 +764,17 @@ func parseTags(text string, basePos Position) []ast.Tag {
 	parts := strings.Split(text, ",")
 	searchStart := 0
 
+	// UTF-16 units of text[:unitsOffset], extended as the scan moves right
+	unitsOffset, units := 0, 0
+	unitsUpTo := func(offset int) int {
+		if offset < unitsOffset {
+			unitsOffset, units = 0, 0
+		}
+		units += utf16Units(text[unitsOffset:offset])
+		unitsOffset = offset
+		return units
+	}
+
 	for _, part := range parts {
 		trimmed := strings.TrimSpace(part)
 		colonIdx := strings.Index(trimmed, ":")
@@ -796,8 +807,8 @@ func parseTags(text string, basePos Position) []ast.Tag {
 		}
 
 		// tagStart/tagEnd are byte offsets into the comment text; columns are UTF-16 units
-		startCol := basePos.Column + 1 + utf16Units(text[:tagStart])
-		endCol := basePos.Column + 1 + utf16Units(text[:tagEnd])
+		startCol := basePos.Column + 1 + unitsUpTo(tagStart)
+		endCol := basePos.Column + 1 + unitsUpTo(tagEnd)
 
 		tags = append(tags, ast.Tag{
 			Name:  name,
